@@ -237,7 +237,8 @@ class DelimSource(Source[Iterable[str]]):
                 if pending:
                     lines[0] = pending + lines[0]
                     pending = None
-                if text[-1] not in '\r\n':
+                #str.splitlines also ends a line at \v \f \x1c \x1d \x1e \x85 \u2028 \u2029, a chunk that ends with one ends a line
+                if text[-1] not in '\r\n\v\f\x1c\x1d\x1e\x85\u2028\u2029':
                     pending = lines.pop()
                 yield from lines
         else:
